@@ -262,10 +262,23 @@ def main():
             dist[mod.classify(c, o)] += 1
         except Exception:  # noqa: BLE001
             pass
+    def shorten(x, depth=0):
+        # evidence samples stay readable: long lists keep their head and their length
+        if isinstance(x, dict):
+            return {k: shorten(v, depth + 1) for k, v in x.items()}
+        if isinstance(x, list):
+            if len(x) > (40 if depth < 2 else 12):
+                k = 40 if depth < 2 else 12
+                return [shorten(v, depth + 1) for v in x[:k]] + [f"... {len(x) - k} more items"]
+            return [shorten(v, depth + 1) for v in x]
+        if isinstance(x, str) and len(x) > 2000:
+            return x[:2000] + f"... {len(x) - 2000} more characters"
+        return x
+
     samples = []
     step = max(1, len(cases) // 6)
     for i in range(0, len(cases), step):
-        samples.append({"case": jsonable(cases[i]), "impl_observation": jsonable(obs[i])})
+        samples.append({"case": shorten(jsonable(cases[i])), "impl_observation": shorten(jsonable(obs[i]))})
         if len(samples) >= 6:
             break
     for t, a in zip(b.theorems, b.assumptions):
